@@ -34,12 +34,12 @@ theorem setup_alOK (cfg : Cfg) : ∀ fuel, AlOK cfg (setup cfg fuel) := by
     cases fwd with
     | true =>
       rw [setup_succ_true] at h
-      cases hres : resolve cfg.db cfg.keep s.already n ver vexpr depth vro.length vro with
+      cases hres : resolve cfg.db cfg.path cfg.keep s.already n ver vexpr depth vro.length vro with
       | none => rw [hres] at h; simp [Res.st?] at h; subst h; exact ha
       | error => rw [hres] at h; simp [Res.st?] at h; subst h; exact ha
       | found d reason =>
         rw [hres] at h
-        obtain ⟨hc, _⟩ := resolve_spec cfg.db cfg.keep s.already ha n ver vexpr depth _ _ _ _ hres
+        obtain ⟨hc, _⟩ := resolve_spec cfg.db cfg.path cfg.keep s.already ha n ver vexpr depth _ _ _ _ hres
         exact install_alOK cfg (setup cfg k) ih depth noRec vro d reason hc _ s'
           (register_already cfg depth d reason s ha hc) h
     | false =>
@@ -58,7 +58,7 @@ theorem setup_alOK (cfg : Cfg) : ∀ fuel, AlOK cfg (setup cfg fuel) := by
 `Action.execute` does not cut off at that depth. -/
 def ClosedAt (cfg : Cfg) (S : Nat → Name → Prop) : Prop :=
   ∀ d ∈ cfg.db.decls, ∀ k, S k d.name → cfg.maxDepth ≠ some k →
-    ∀ g n o j v x t, (g, Act.dep n o j v x t) ∈ d.table → S (k + 1) n
+    ∀ g n o j v x t kl, (g, Act.dep n o j v x t kl) ∈ d.table → S (k + 1) n
 
 /-- an environment invariant kept by everything done on behalf of a subject -/
 structure SubjInv (cfg : Cfg) (S : Nat → Name → Prop) (P : Env → Prop) : Prop where
@@ -82,8 +82,8 @@ theorem acts_subj (cfg : Cfg) (S : Nat → Name → Prop) (P : Env → Prop) (hc
   | cons a rest ih =>
     have hl' : ∀ a ∈ rest, a ∈ d.actions cfg.exact := fun a hm => hl a (List.mem_cons_of_mem _ hm)
     intro s s' ha hp h
-    by_cases hdep : ∃ n o j v x t, a = .dep n o j v x t
-    · obtain ⟨n, o, j, v, x, t, rfl⟩ := hdep
+    by_cases hdep : ∃ n o j v x t kl, a = .dep n o j v x t kl
+    · obtain ⟨n, o, j, v, x, t, kl, rfl⟩ := hdep
       simp only [acts] at h
       split at h
       · exact ih hl' s s' ha hp h
@@ -91,7 +91,7 @@ theorem acts_subj (cfg : Cfg) (S : Nat → Name → Prop) (P : Env → Prop) (hc
         have hmd : cfg.maxDepth ≠ some k := by
           intro e; apply hgo; simp [e]
         obtain ⟨g, hg⟩ := mem_actions d cfg.exact _ (hl _ (List.mem_cons_self))
-        have hSn : S (k + 1) n := hcl d (lookup_some cfg.db d.prod d hc).1 k hS hmd g n o j v x t hg
+        have hSn : S (k + 1) n := hcl d (lookup_some cfg.db d.prod d hc).1 k hS hmd g n o j v x t kl hg
         split at h
         · rename_i s1 hr
           exact ih hl' s1 s' (hal _ _ _ _ _ _ _ _ _ ha (by rw [hr]; rfl)) (hrec _ _ _ _ _ _ _ _ _ hSn ha hp hr) h
@@ -106,7 +106,7 @@ theorem acts_subj (cfg : Cfg) (S : Nat → Name → Prop) (P : Env → Prop) (hc
           split at h
           · cases h
           · exact ih hl' ⟨s.env, s.aliases, s.unaliased, s1.already⟩ s' h1 hp h
-    · have hnd : ∀ n o j v x t, a ≠ .dep n o j v x t := fun n o j v x t e => hdep ⟨n, o, j, v, x, t, e⟩
+    · have hnd : ∀ n o j v x t kl, a ≠ .dep n o j v x t kl := fun n o j v x t kl e => hdep ⟨n, o, j, v, x, t, kl, e⟩
       rw [acts_cons_nondep rec cfg fwd k noRec vro d a rest s hnd] at h
       exact ih hl' _ s' (by simpa using ha) (hP.apply fwd k d a s hc (hl a (List.mem_cons_self)) hS hp) h
 
@@ -147,12 +147,12 @@ theorem setup_subjInv (cfg : Cfg) (S : Nat → Name → Prop) (P : Env → Prop)
     cases fwd with
     | true =>
       rw [setup_succ_true] at h
-      cases hres : resolve cfg.db cfg.keep s.already n ver vexpr k vro.length vro with
+      cases hres : resolve cfg.db cfg.path cfg.keep s.already n ver vexpr k vro.length vro with
       | none => rw [hres] at h; cases h
       | error => rw [hres] at h; cases h
       | found d reason =>
         rw [hres] at h
-        obtain ⟨hc, hname⟩ := resolve_spec cfg.db cfg.keep s.already ha n ver vexpr k _ _ _ _ hres
+        obtain ⟨hc, hname⟩ := resolve_spec cfg.db cfg.path cfg.keep s.already ha n ver vexpr k _ _ _ _ hres
         refine install_subj cfg S P hcl hP (setup cfg f) (setup_alOK cfg f) ih k noRec vro d reason hc
           (by rw [hname]; exact hS) ?_ _ s' (register_already cfg k d reason s ha hc)
           (by rw [register_env]; exact hp) h
